@@ -80,9 +80,10 @@ pub fn run(args: &Args) -> Report {
         picks0.extend((0..want).map(|k| Some(k * starts.len() / want.max(1))));
         // every starting point twice: as it is, and after the adversarial prefix "storage lags behind
         // consensus until nothing can happen any more, then every process dies" (also on real loops)
-        let picks: Vec<Option<usize>> = picks0.iter().flat_map(|p| [*p, *p]).collect();
+        // ... and a third time with an execution layer that needs 1.5 view timeouts to verify a payload
+        let picks: Vec<Option<usize>> = picks0.iter().flat_map(|p| [*p, *p, *p]).collect();
         let lres = par_map(picks.len(), |i| {
-            if Instant::now() > deadline && i > 1 {
+            if Instant::now() > deadline && i > 2 {
                 return None;
             }
             let nodes: Vec<(usize, Local)> = match picks[i] {
@@ -90,7 +91,14 @@ pub fn run(args: &Args) -> Report {
                 Some(si) => sys.correct.iter().zip(starts[si].0.locals.iter()).map(|(c, l)| (*c, t.locals[*l as usize].restarted())).collect(),
             };
             let ch = core::Chooser::new(vec![], None);
-            if i % 2 == 1 {
+            if i % 3 == 2 {
+                let mut r = bftsim::run_loops_slow_verification(&ch, &sys.w, &nodes, 2 * bound);
+                if !r.ok {
+                    r.why = format!("{} (payload verification takes 1.5 view timeouts)", r.why);
+                }
+                return Some(r);
+            }
+            if i % 3 == 1 {
                 let after_crash = bftsim::stalled_storage_then_crash(&ch, &sys.w, &nodes);
                 let ch = core::Chooser::new(vec![], None);
                 let mut r = bftsim::run_loops(&ch, &sys.w, &after_crash, bound);
